@@ -1,5 +1,5 @@
 """C10 -- names resolve by lexical scope, independent of how they are spelled."""
-import os, sys, json
+import os, sys, json, re
 from vlib import *
 
 PROP = 'C10'
@@ -12,8 +12,22 @@ def run_harness(v, args, seed, timeout=3000):
         v.obligation('harness c10 %s ran' % args[0], False, out[-800:])
     return lines
 
+def unresolved_class():
+    """an occurrence left unresolved after Ok is the recorded finding that matches what the source does
+    now (read from the generated table); if the source claims to visit every argument it is a new defect"""
+    try:
+        t = open(os.path.join(COQ, 'theories', 'Gen', 'RibTable.v')).read()
+    except OSError:
+        return 'c10-oracle:unresolved-after-ok'
+    mode = re.search(r'gen_excess_mode : excess_mode := (\w+)', t)
+    skips = re.search(r'gen_zip_skips_padding : bool := (\w+)', t)
+    mode = mode.group(1) if mode else '?'
+    if mode == 'ExNone': return 'c10-excess-args'
+    if mode == 'ExAfterParams' and skips and skips.group(1) == 'true': return 'c10-padding-gap'
+    return 'c10-oracle:unresolved-after-ok'
+
 def oracle_class(what):
-    if what.startswith('unresolved-after-ok'): return 'c10-excess-args'
+    if what.startswith('unresolved-after-ok'): return unresolved_class()
     if what.startswith('rename:'): return 'c10-oracle:rename'
     if what.startswith('make_idents_unique'): return 'c10-oracle:make_idents_unique'
     return 'c10-oracle:' + what.split(':')[0].split(' ')[0]
@@ -116,4 +130,4 @@ def main(argv):
                       'byte-level renaming invariance (second sentence of the property) is the implementation-level oracle (c), not a theorem: generated old-format ECL programs, 3 injective renamings each, compiled in-process (TH07 subset map) and with the CLI on a sample'],
         assumptions=['expressions are opaque except for the identifier uses in them; labels, difficulty strings and meta keys are not names',
                      'enum colours come only from instruction signatures of the mapfile (user functions have none)',
-                     'open finding c10-excess-args: arguments beyond the callee\'s parameters are never resolved (Model/Resolve.v models this; Props C10_every_use_bound_refuted)'])
+                     'findings c10-excess-args (fixed 65d2ea8) / c10-padding-gap (open): call arguments that are not matched with a parameter are visited only as far as the source says (generated gen_excess_mode, gen_zip_skips_padding; Model/Resolve.v follows them; Props C10_every_use_bound_refuted / C10_uses_never_skipped_after_fix)'])
